@@ -91,7 +91,7 @@ func c03Passthrough(c *Ctx) {
 		}
 		ir.EachInstr(fn, func(_ *ssa.BasicBlock, _ int, in ssa.Instruction) {
 			r, ok := in.(*ssa.Return)
-			if !ok || len(r.Results) == 0 {
+			if !ok || len(ir.Results(r)) == 0 {
 				return
 			}
 			var visit func(v ssa.Value, d int)
@@ -117,8 +117,8 @@ func c03Passthrough(c *Ctx) {
 				}
 			}
 			for _, i := range idxs {
-				if i < len(r.Results) {
-					visit(r.Results[i], 0)
+				if i < len(ir.Results(r)) {
+					visit(ir.Results(r)[i], 0)
 				}
 			}
 		})
@@ -907,8 +907,8 @@ func (a *answerAnalysis) escape(fn *ssa.Function, errReturnOK bool) ssa.Instruct
 				break
 			}
 			if r, ok := in.(*ssa.Return); ok {
-				if errReturnOK && len(r.Results) > 0 {
-					last := r.Results[len(r.Results)-1]
+				if errReturnOK && len(ir.Results(r)) > 0 {
+					last := ir.Results(r)[len(ir.Results(r))-1]
 					if ir.TypeStr(last.Type()) == "error" && definitelyNonNilErr(last) {
 						answered = true
 						break
@@ -1290,7 +1290,7 @@ func c03Decode(c *Ctx) {
 					}
 				}
 				if r, ok := in.(*ssa.Return); ok {
-					for _, res := range r.Results {
+					for _, res := range ir.Results(r) {
 						// returning a constructed JSON-RPC error, or a non-nil error to the caller
 						if oc := originCall(res); oc != nil {
 							if sc := ir.StaticCallee(oc); sc != nil && strings.Contains(ir.TypeStr(sc.Signature.Results().At(0).Type()), "JSONRPCError") {
